@@ -112,10 +112,33 @@ def stateStr (σ : Conn) : String :=
   s!"c={joinWith "+" cs};w={joinWith "+" ws};n={σ.inFlight};f=" ++ b01 σ.isShutdown ++ b01 σ.wantsFin ++
     b01 σ.builtin ++ b01 σ.hasConn ++ b01 σ.waiting ++ b01 σ.isOpen
 
-def runCC : Conn → List Op → List String → List String
+/-- driver-level op: a primitive critical section, or `W` = one turn of the `goConnect` loop:
+`sendLoop` if there is a connection, else `continueRunningImpl(true)`, `setClientConn`, `sendLoop` -/
+inductive DOp where
+  | prim (op : Op)
+  | loop
+
+def loopOps (σ : Conn) : List Op := if σ.hasConn then [.send] else [.disc true, .connect, .send]
+
+def parseDOps : Nat → List String → Option (List DOp)
+  | _, [] => some []
+  | n, s :: t =>
+    if s == "W" then (parseDOps n t).map (DOp.loop :: ·)
+    else match parseOp n s with
+      | none => none
+      | some op =>
+        let n' := match op with
+          | .setup .. => n + 1
+          | _ => n
+        (parseDOps n' t).map (DOp.prim op :: ·)
+
+def runCC : Conn → List DOp → List String → List String
   | _, [], acc => acc.reverse
-  | σ, op :: ops, acc =>
-    match step σ op with
+  | σ, d :: ops, acc =>
+    let prims := match d with
+      | .prim op => [op]
+      | .loop => loopOps σ
+    match run σ prims with
     | .error _ => ("panic" :: acc).reverse
     | .ok (σ1, evs) =>
       runCC σ1 ops ((joinWith "," ((canonEvs evs).map evStr) ++ "#" ++ stateStr σ1) :: acc)
@@ -228,7 +251,7 @@ def splitOps (s : String) : List String := if s == "-" then [] else s.splitOn ",
 def handle (op : String) (args : List String) : String :=
   match op, args with
   | "cc", [ops] =>
-    match parseOps 1 (splitOps ops) with
+    match parseDOps 1 (splitOps ops) with
     | none => "bad-op"
     | some l => joinWith "|" (runCC Conn.init l [])
   | "wp", [create, ops] =>
